@@ -1047,3 +1047,246 @@ func c16RebaseKeepsAll(c *Ctx) {
 		c.Fail(rule, "anchor", token.NoPos, "no path re-basing loop found in bufconfig")
 	}
 }
+
+// ---- C16 (after round-6 seed C16-r) --------------------------------------------------------------------------------
+
+// c16NameFromWholeRef (PLUGIN-NAME-WHOLE-REF): the writer of buf.yaml serialises every check plugin from its Name().
+// For a remote plugin that name must therefore be the whole reference, label or commit included; a name built from
+// the reference's FullName alone writes `buf.build/acme/x` for `buf.build/acme/x:v1.4.0` and the pin is gone on the
+// next read. In the constructor that takes a reference, what is stored as the name derives from the reference's own
+// String() and does not pass through FullName().
+func c16NameFromWholeRef(c *Ctx) {
+	const rule = "PLUGIN-NAME-WHOLE-REF"
+	c.Rule(rule, "a remote plugin's name is its whole reference (the writer serialises the name)", 1)
+	p := c.P
+	pk := p.Pkg("private/bufpkg/bufconfig")
+	if pk == nil {
+		c.Fail(rule, "anchor", token.NoPos, "bufconfig not found")
+		return
+	}
+	n := 0
+	for _, sf := range p.SSAFuncsOf([]*packages.Package{pk}) {
+		var ref *ssa.Parameter
+		for _, prm := range sf.Params {
+			if strings.HasSuffix(namedPath(prm.Type()), "bufparse.Ref") {
+				ref = prm
+			}
+		}
+		if ref == nil {
+			continue
+		}
+		for _, b := range sf.Blocks {
+			for _, ins := range b.Instrs {
+				st, ok := ins.(*ssa.Store)
+				if !ok {
+					continue
+				}
+				fa, ok := st.Addr.(*ssa.FieldAddr)
+				if !ok || !strings.HasSuffix(fieldName(fa.X.Type(), fa.Field), "pluginConfig.name") {
+					continue
+				}
+				n++
+				whole, viaFullName := false, false
+				sliceBack(st.Val, func(x ssa.Value) bool {
+					if cl, ok := x.(*ssa.Call); ok && cl.Call.IsInvoke() {
+						switch cl.Call.Method.Name() {
+						case "String":
+							if stripConv(cl.Call.Value) == ssa.Value(ref) {
+								whole = true
+							}
+						case "FullName":
+							viaFullName = true
+						}
+					}
+					return true
+				})
+				c.Ob(rule, ssaFuncName(sf)+"/name", st.Pos(), whole && !viaFullName, true, "the stored name is %s.String() (%v) and does not go through FullName() (%v)", ref.Name(), whole, !viaFullName)
+			}
+		}
+	}
+	if n == 0 {
+		c.Fail(rule, "anchor", token.NoPos, "no plugin-config constructor taking a reference found")
+	}
+}
+
+// ---- C17 (after round-6 seed C17-q) --------------------------------------------------------------------------------
+
+// c17ByDirByFiles (BY-DIR-BY-FILES): with strategy `directory` each request lists the non-import files of ONE directory.
+// Selecting by the directory's *name* would also take everything below it (a nested targeted directory ends up in two
+// requests) and imports that happen to live there. In ImageByDir the list handed to the path filter for a directory is
+// what the directory→files table holds for it.
+func c17ByDirByFiles(c *Ctx) {
+	const rule = "BY-DIR-BY-FILES"
+	c.Rule(rule, "the per-directory images are selected by the directory's file list, not by the directory name", 1)
+	p := c.P
+	fr := p.Func("private/bufpkg/bufimage", "ImageByDir")
+	if fr == nil || fr.Obj == nil {
+		c.Fail(rule, "anchor", token.NoPos, "bufimage.ImageByDir not found")
+		return
+	}
+	sf := p.SSAFunc(fr.Obj)
+	n := 0
+	for _, call := range callsIn(sf) {
+		callee := call.Call.StaticCallee()
+		if callee == nil || callee.Pkg != sf.Pkg || len(call.Call.Args) < 2 {
+			continue
+		}
+		// the call that filters the image by paths: first argument the image, a []string after it
+		if !strings.HasSuffix(namedPath(call.Call.Args[0].Type()), "bufimage.Image") {
+			continue
+		}
+		sl, ok := call.Call.Args[1].Type().Underlying().(*types.Slice)
+		if !ok {
+			continue
+		}
+		if b, ok := sl.Elem().Underlying().(*types.Basic); !ok || b.Kind() != types.String {
+			continue
+		}
+		n++
+		okAll := true
+		var walk func(v ssa.Value, seen map[ssa.Value]bool)
+		walk = func(v ssa.Value, seen map[ssa.Value]bool) {
+			v = stripConv(v)
+			if seen[v] {
+				return
+			}
+			seen[v] = true
+			switch t := v.(type) {
+			case *ssa.Phi:
+				for _, e := range t.Edges {
+					walk(e, seen)
+				}
+			case *ssa.Extract:
+				walk(t.Tuple, seen)
+			case *ssa.Lookup:
+				// the table: result of a call (normalpath.ByDir) or a local map
+			default:
+				okAll = false
+			}
+		}
+		walk(call.Call.Args[1], map[ssa.Value]bool{})
+		c.Ob(rule, "ImageByDir/"+callee.Name(), call.Pos(), okAll, true, "on every path the list handed to %s is a lookup in the directory→files table: %v", callee.Name(), okAll)
+	}
+	if n == 0 {
+		c.Fail(rule, "anchor", token.NoPos, "no path-filter call found in ImageByDir")
+	}
+}
+
+// ---- C18 (after round-6 seeds C18-p, C18-q) ------------------------------------------------------------------------
+
+// c18PrefixSuffixIndependent (PREFIX-SUFFIX-INDEPENDENT): a managed-mode value with a prefix and a suffix
+// (java_package) applies each when it is set. Whether the suffix is applied does not depend on whether a prefix is:
+// no read of the suffix member is control-dependent on a test of the prefix member.
+func c18PrefixSuffixIndependent(c *Ctx, pk *packages.Package) {
+	const rule = "PREFIX-SUFFIX-INDEPENDENT"
+	c.Rule(rule, "the suffix override is applied whether or not there is a prefix", 1)
+	p := c.P
+	n := 0
+	for _, sf := range p.SSAFuncsOf([]*packages.Package{pk}) {
+		for _, f := range allSSAFuncs(sf) {
+			for _, b := range f.Blocks {
+				for _, ins := range b.Instrs {
+					var name string
+					switch t := ins.(type) {
+					case *ssa.FieldAddr:
+						name = fieldName(t.X.Type(), t.Field)
+					case *ssa.Field:
+						name = fieldName(t.X.Type(), t.Field)
+					}
+					if !strings.HasSuffix(name, ".suffix") {
+						continue
+					}
+					n++
+					onPrefix := false
+					for _, ge := range guardingEdges(b) {
+						sliceBack(ge.If.Cond, func(x ssa.Value) bool {
+							var fn string
+							switch t := x.(type) {
+							case *ssa.FieldAddr:
+								fn = fieldName(t.X.Type(), t.Field)
+							case *ssa.Field:
+								fn = fieldName(t.X.Type(), t.Field)
+							}
+							if strings.HasSuffix(fn, ".prefix") {
+								onPrefix = true
+							}
+							return true
+						})
+					}
+					c.Ob(rule, fmt.Sprintf("%s/suffix-read@%s", ssaFuncName(f), b.Comment), ins.Pos(), !onPrefix, true, "this read of the suffix is reached whatever the prefix is: %v", !onPrefix)
+				}
+			}
+		}
+	}
+	if n == 0 {
+		c.Fail(rule, "anchor", token.NoPos, "no read of a suffix override found")
+	}
+}
+
+// c18SweepScansAll (SWEEP-SCANS-ALL): "source-info entries are removed exactly for the options that were rewritten"
+// is decided by one pass over all locations that also registers every option that stays with its parent. The pass is
+// complete: the loops of the sweeper leave only when the list is exhausted or with an error, never because "everything
+// that was marked has been seen".
+func c18SweepScansAll(c *Ctx, pkI *packages.Package) {
+	const rule = "SWEEP-SCANS-ALL"
+	c.Rule(rule, "the sweeper's passes over the locations run to the end of the list", 1)
+	p := c.P
+	n := 0
+	for _, sf := range p.SSAFuncsOf([]*packages.Package{pkI}) {
+		for _, h := range sf.Blocks {
+			if h.Comment != "rangeindex.loop" {
+				continue
+			}
+			loop := loopBlocks(h)
+			if loop == nil {
+				continue
+			}
+			// over a list of locations
+			overLocations := false
+			for b := range loop {
+				for _, ins := range b.Instrs {
+					if ia, ok := ins.(*ssa.IndexAddr); ok {
+						if sl, ok := ia.X.Type().Underlying().(*types.Slice); ok && strings.HasSuffix(namedPath(derefType(sl.Elem())), "SourceCodeInfo_Location") {
+							overLocations = true
+						}
+					}
+				}
+			}
+			if !overLocations {
+				continue
+			}
+			n++
+			var early []string
+			for b := range loop {
+				if b == h {
+					continue
+				}
+				for _, s := range b.Succs {
+					if loop[s] {
+						continue
+					}
+					// leaving the loop from the body: fine only as a non-nil error return
+					isErr := false
+					if r, ok := s.Instrs[len(s.Instrs)-1].(*ssa.Return); ok {
+						for _, res := range r.Results {
+							if isErrorType(res.Type()) && !isNilConst(spilledResult(r, res)) {
+								isErr = true
+							}
+						}
+					}
+					if !isErr {
+						at := token.NoPos
+						for q := len(b.Instrs) - 1; q >= 0 && at == token.NoPos; q-- {
+							at = b.Instrs[q].Pos()
+						}
+						early = append(early, p.Pos(at))
+					}
+				}
+			}
+			c.Ob(rule, fmt.Sprintf("%s/loop#%d", ssaFuncName(sf), n), sf.Pos(), len(early) == 0, true, "the loop over the locations is left only at the end of the list or with an error (other exits: %v)", early)
+		}
+	}
+	if n == 0 {
+		c.Fail(rule, "anchor", token.NoPos, "no loop over source code info locations found in the sweeper")
+	}
+}
